@@ -264,3 +264,40 @@ Proof.
   exists ax_hd, fx_sp, fx_ip, ax_ap, ax_inf, ax_inp. destruct ax_refutes as (H1 & H2 & H3 & H4).
   split; [exact H1|]. split; [exact H2|]. eexists. split; [apply flatten_full_stable_spec|]. split; assumption.
 Qed.
+
+Lemma c12_succeeds_adv hd sp ip ap inf inp r :
+  Forall (fun b => b_kind b = KStd /\ b_entries b = [] /\ b_adv b <> []) inp -> inp <> [] ->
+  i_hdr_ok inf = true -> i_count inf = 0 -> i_debit inf = 0 -> i_credit inf = 0 ->
+  Forall (fun p => hd_adv (hd (fst p)) = true /\ hd_ok (hd (fst p)) = true) (adv_ids inp) ->
+  cat_rule inp -> BuildIAT.zlen (adv_ids inp) <= 9998 ->
+  flatten_full_spec GA GT GTT hd sp ip ap inf inp r ->
+  (fst r = FOk \/ (fst r = FErrValidate /\ file_ctl_ok GA (snd r) = false))
+  /\ af_iat (snd r) = [] /\ forallb sb_is_adv (af_std (snd r)) = true
+  /\ exists all, r = finish GA GT GTT hd sp ip ap inf all /\ flatten_spec inp (finalize all)
+       /\ length (af_std (snd r)) = length all /\ Forall (created_a GTT hd ap) (pre all).
+Proof. apply flatten_succeeds_adv. Qed.
+
+(* non-vacuity: two ADV batches (2 + 1 entries) with one header *)
+Definition ay_e (n : N) (amt : Z) : entry := mkEntry [] [n] amt false 0 0.
+Definition ay_inp : list batch := [mkBatch KStd [8%N] 1 [] [ay_e 1 100; ay_e 2 250]; mkBatch KStd [8%N] 2 [] [ay_e 3 75]].
+
+Lemma ay_hyps :
+  Forall (fun b => b_kind b = KStd /\ b_entries b = [] /\ b_adv b <> []) ay_inp /\ ay_inp <> [] /\
+  Forall (fun p => hd_adv (ax_hd (fst p)) = true /\ hd_ok (ax_hd (fst p)) = true) (adv_ids ay_inp) /\
+  cat_rule ay_inp /\ BuildIAT.zlen (adv_ids ay_inp) <= 9998.
+Proof.
+  split; [repeat constructor; cbn; congruence|]. split; [discriminate|].
+  split; [repeat constructor|].
+  split.
+  { split; [|split].
+    - repeat constructor; cbn; intros; intuition (subst; reflexivity).
+    - intros a b Ha Hb _. cbn in Ha, Hb. destruct Ha as [<-|[<-|[]]], Hb as [<-|[<-|[]]]; reflexivity.
+    - repeat constructor; cbn; now left. }
+  vm_compute. discriminate.
+Qed.
+
+Lemma ay_result :
+  let r := flatten_full_stable GA GT GTT ax_hd fx_sp fx_ip ax_ap ax_inf ay_inp in
+  fst r = FOk /\ length (af_std (snd r)) = 1%nat /\
+  af_actl (snd r) = Offsets.mkfctl 1 1 3 69414030 0 425.
+Proof. vm_compute. repeat split. Qed.
